@@ -123,3 +123,23 @@ Theorem C01_end_to_end_none : forall (hash : list N -> N) (evalid tvalid : N -> 
     fst (do_reads B jr hr (init_r (map frame_of frames)) ns) = spec_reads (concat ws) ns.
 Proof. exact end_to_end_none. Qed.
 Print Assumptions C01_end_to_end_none.
+
+(* ---------- with the checksums of the code (XXHash32 / XXHash64, Model/XXHash.v): no hypothesis on the hash left ---------- *)
+From KV Require Import Model.XXHash Proofs.XXHashProofs.
+Theorem C01_end_to_end_none_xxhash : forall (evalid tvalid : N -> bool) c jw hw jr hr
+    (ws : list (list N)) (ns : list N) nframes rbuf sched,
+  cfg_ok evalid tvalid c ->
+  (h_bsize c <= 8388608)%N -> bytes_ok (concat ws) -> (length (concat ws) < nframes)%nat ->
+  (0 < jw)%N -> (0 < jr)%N -> (0 < rbuf)%N -> (rbuf mod 8 = 0)%N ->
+  let B := h_bsize c in let hash := block_hash (h_ck c) in
+  exists s1 s2 frames,
+    do_writes B jw hw (init_w jw) ws = (s1, true) /\
+    w_close B jw hw (fun _ => false) s1 false false = (s2, false) /\
+    parse_stream hash evalid tvalid nframes rbuf sched (write_stream hash c (map snd (w_out s2))) = Some (norm_cfg c, frames) /\
+    fst (do_reads B jr hr (init_r (map frame_of frames)) ns) = spec_reads (concat ws) ns.
+Proof.
+  intros evalid tvalid c jw hw jr hr ws ns nframes rbuf sched Hc.
+  exact (end_to_end_none (block_hash (h_ck c)) evalid tvalid c jw hw jr hr ws ns nframes rbuf sched Hc
+           (block_hash_32 (h_ck c)) (block_hash_64 (h_ck c))).
+Qed.
+Print Assumptions C01_end_to_end_none_xxhash.
